@@ -708,6 +708,9 @@ class HookEval:
         raise AnalysisError(f"{self.rel}:{getattr(node, 'lineno', '?')}: unsupported test in {self.name}: "
                             f"{ast.unparse(node)}")
 
+    def _fork_bool(self):
+        return BOTH
+
     def _whole_value_ops(self, node, w, extra):
         """Uses, inside a test, of a mapping-valued path *as a whole* (anything but: base of a ["k"] / .get("k")
         access, right operand of `"k" in`, operand of `is None`, first argument of isinstance)."""
